@@ -666,3 +666,45 @@ def rf195(run):
                                'a register or memory operand for the property' if want_err else 'an integer immediate is the documented form'),
                               line=chain['l'])
     return n
+
+
+# ---------------------------------------------------------------------------------------------
+# RF201: the documented undefined-type va_list memory passes the validator
+# ---------------------------------------------------------------------------------------------
+
+def rf201(run):
+    from lib import enumflow as EF
+    rule = 'RF201'
+    run.rule(rule, 'MIR.md: "va_list operand can be memory with undefined type".  The wrong-type test of MIR_finish_func for memory operands, '
+                   'evaluated as a predicate over (opcode, operand index) with the memory type MIR_T_UNDEF: it does not fire for operand 0 of '
+                   'va_start / va_end and operand 1 of va_arg / va_block_arg, and it fires for an ordinary instruction (mov).  The special '
+                   'case behind it (value mode taken from the expectation) names the same four positions')
+    tu = run.tu('mir')
+    f = tu.func('MIR_finish_func')
+    run.functions_analysed.add(('mir', f.name))
+    preds = EF.Predicates(tu)
+    sites = [x for x in f.walk() if x['k'] == 'IfStmt' and 'wrong_type_p' in F.src(x['c'][0]) and 'u.mem.type' in F.src(x['c'][0])]
+    if not sites:
+        raise F.AnalysisBroken('MIR_finish_func: the wrong-type test of memory operands was not found')
+    cond = sites[0]['c'][0]
+    codes = dict(tu.enum('MIR_insn_code_t'))
+    ty = dict(tu.enum('MIR_type_t'))
+    n = 0
+    for nm, i, want in (('MIR_VA_START', 0, False), ('MIR_VA_END', 0, False), ('MIR_VA_ARG', 1, False), ('MIR_VA_BLOCK_ARG', 1, False),
+                        ('MIR_MOV', 1, True), ('MIR_VA_ARG', 0, True)):
+        env = {'code': codes[nm], 'i': i}
+        for y in F.walk(cond):
+            if y['k'] == 'MemberExpr' and y['n'] == 'type' and 'mem' in F.src(y):
+                env[F.src(y)] = ty['MIR_T_UNDEF']
+        v = preds.eval(cond, env, frozenset())
+        if v is None:
+            raise F.AnalysisBroken('MIR_finish_func: the wrong-type test is not evaluable for %s operand %d' % (nm, i))
+        ok = bool(v) == want
+        n += 1
+        run.ob(rule, (nm, i), ok, {'opcode': nm, 'operand': i, 'undefined-type memory rejected': bool(v), 'documented': 'allowed (va_list)' if not want else 'not allowed'})
+        if not ok:
+            run.violation(rule, f, 'undefined-type memory as operand %d of %s' % (i, nm[4:].lower()), 'MIR_finish_func %s memory of undefined type as '
+                          'operand %d of %s: %s' % ('rejects' if v else 'accepts', i, nm[4:].lower(),
+                                                    'MIR.md allows the va_list to be given this way (the memory address is the va_list address)' if v
+                                                    else 'only the va_list positions may use it'), line=sites[0]['l'])
+    return n
